@@ -1183,6 +1183,20 @@ def cksum_texts(ctx):
                     out += [",".join(t_)] * (3 if len(fam) == 2 else 1)
                     if not extra:
                         break
+    # algorithm names in other scripts, capitalised or all upper-case, with digests that are already canonical: alone (the
+    # only thing to normalise is a non-ASCII letter) and in pairs whose order differs before and after lower-casing
+    out += ["\u0413\u041e\u0421\u0422:0a1b2c3d", "\u0421\u0442\u0440\u0438\u0431\u043e\u0433:00ff", "\u03a9:00", "\u00c4:00ff", "\u01c5:00", "\u0130:00", "\u00c9a:ab", "a\u00c9:ab",
+            "\u03a9:00,\u03b2:11", "\u03b2:11,\u03a9:00", "\u0421\u0442\u0440\u0438\u0431\u043e\u0433:00ff,\u0433\u043e\u0441\u0442:abcd", "\u0433\u043e\u0441\u0442:abcd,\u0421\u0442\u0440\u0438\u0431\u043e\u0433:00ff",
+            "\u00c4:00,\u00e0:11,z:22", "z:22,\u00e0:11,\u00c4:00", "\u039f\u0394\u039f\u03a3:00", "x\u03a3:00,x\u03c3:11"] * 2
+    # real algorithm names with digests of their real sizes, hex in upper case (what other tools print): every set of three
+    real = [("md5", 32), ("sha1", 40), ("sha256", 64), ("sha512", 128), ("SHA-1", 40), ("SHA-256", 64), ("SHA3-256", 64), ("sha512-256", 64), ("blake2b-256", 64), ("sha384", 96)]
+    for trio in itertools.combinations(real, 3):
+        out.append(",".join("%s:%s" % (a, ("A1B2C3D4E5F60718" * 8)[:n]) for a, n in trio))
+    # the second and third algorithm name at every offset of the text up to 600 (first digest of every even length, two
+    # parities of the first name), upper- and lower-case hex: whatever is staged in fixed-size blocks meets its border
+    for k in range(0, 300):
+        out.append("a:%s,bb:CD,ccc:EF" % ("AB" * k))
+        out.append("aa:%s,bb:cd,ccc:EF" % ("ab" * k))
     import srcdict
     for t in srcdict.source_tokens():
         out += [t + ":00ff", "sha1:" + t, "sha1:00," + t + ":ab", t + "=00ff", "sha1:ab" + t, t + "sha1:ab"]
